@@ -73,6 +73,11 @@ def shards(tier, seed):
         for order in (spaces.sig(d), list(reversed(spaces.sig(d)))):
             sh.append(dict(stratum='all signature orderings of d<=2 one after the other in one process (two orders), subsets <=2 blades',
                            seq=[binprog.mk('seq', spaces.cfg_sig(s), ('S', 2), ('S', 2), 1)[0] for s in order]))
+    # the same signature with the default basis and with custom bases, one after the other in one process
+    sh.append(dict(stratum='default basis and custom bases of one signature one after the other in one process',
+                   seq=[binprog.mk('seq', c, ('S', 2), ('S', 2), 1)[0] for c in
+                        [spaces.cfg_pqr(2, 0, 1), spaces.NAMED['2DPGA'], spaces.cfg_pqr(2, 0, 1)] +
+                        [spaces.cfg_sig([1, -1], basis=b) for b in spaces.all_bases(2)] + [spaces.cfg_sig([1, -1])]]))
     return sh
 
 
